@@ -168,20 +168,40 @@ done :
 // ---------------------------------------------------------------- seed corpus (deterministic, from the working tree)
 struct SeedFile { std::string name ; std::vector<uint8_t> bytes ; int format ; int ch ; bool rich ; } ;
 
-inline void add_rich_metadata (SNDFILE *f, int ch)
+inline void add_rich_metadata (SNDFILE *f, int ch, bool with_instrument = true)
 {	sf_set_string (f, SF_STR_TITLE, "The title") ; sf_set_string (f, SF_STR_ARTIST, "An artist") ; sf_set_string (f, SF_STR_COMMENT, "odd") ; sf_set_string (f, SF_STR_COPYRIGHT, "(c)") ;
 	sf_set_string (f, SF_STR_SOFTWARE, "verif") ; sf_set_string (f, SF_STR_DATE, "2001-02-03") ; sf_set_string (f, SF_STR_ALBUM, "album") ; sf_set_string (f, SF_STR_LICENSE, "lic") ; sf_set_string (f, SF_STR_TRACKNUMBER, "7") ; sf_set_string (f, SF_STR_GENRE, "genre") ;
 	SF_BROADCAST_INFO bi ; memset (&bi, 0, sizeof (bi)) ; snprintf (bi.description, sizeof (bi.description), "description") ; snprintf (bi.originator, sizeof (bi.originator), "orig") ; bi.coding_history_size = (uint32_t) snprintf (bi.coding_history, sizeof (bi.coding_history), "A=PCM,F=8000,W=16,M=mono\r\n") ; sf_command (f, SFC_SET_BROADCAST_INFO, &bi, sizeof (bi)) ;
 	SF_CART_INFO ci ; memset (&ci, 0, sizeof (ci)) ; snprintf (ci.version, sizeof (ci.version), "0101") ; snprintf (ci.title, sizeof (ci.title), "cart title") ; ci.tag_text_size = (uint32_t) snprintf (ci.tag_text, sizeof (ci.tag_text), "tag text") ; sf_command (f, SFC_SET_CART_INFO, &ci, sizeof (ci)) ;
 	SF_CUES cues ; memset (&cues, 0, sizeof (cues)) ; cues.cue_count = 5 ; for (int i = 0 ; i < 5 ; i++) { cues.cue_points [i].indx = i + 1 ; cues.cue_points [i].position = 10 * i ; cues.cue_points [i].fcc_chunk = 0x61746164 ; cues.cue_points [i].sample_offset = 10 * i ; snprintf (cues.cue_points [i].name, sizeof (cues.cue_points [i].name), "cue%d", i) ; } sf_command (f, SFC_SET_CUE, &cues, sizeof (cues)) ;
-	SF_INSTRUMENT in ; memset (&in, 0, sizeof (in)) ; in.gain = 1 ; in.basenote = 60 ; in.detune = 3 ; in.velocity_lo = 1 ; in.velocity_hi = 127 ; in.key_lo = 0 ; in.key_hi = 127 ; in.loop_count = 2 ; in.loops [0].mode = SF_LOOP_FORWARD ; in.loops [0].start = 10 ; in.loops [0].end = 100 ; in.loops [0].count = 3 ; in.loops [1].mode = SF_LOOP_BACKWARD ; in.loops [1].start = 200 ; in.loops [1].end = 300 ; sf_command (f, SFC_SET_INSTRUMENT, &in, sizeof (in)) ;
+	SF_INSTRUMENT in ; memset (&in, 0, sizeof (in)) ; if (with_instrument) { in.gain = 1 ; in.basenote = 60 ; in.detune = 3 ; in.velocity_lo = 1 ; in.velocity_hi = 127 ; in.key_lo = 0 ; in.key_hi = 127 ; in.loop_count = 2 ; in.loops [0].mode = SF_LOOP_FORWARD ; in.loops [0].start = 10 ; in.loops [0].end = 100 ; in.loops [0].count = 3 ; in.loops [1].mode = SF_LOOP_BACKWARD ; in.loops [1].start = 200 ; in.loops [1].end = 300 ; sf_command (f, SFC_SET_INSTRUMENT, &in, sizeof (in)) ; }
 	std::vector<int> map ((size_t) ch) ; for (int i = 0 ; i < ch ; i++) map [i] = i == 0 ? SF_CHANNEL_MAP_LEFT : i == 1 ? SF_CHANNEL_MAP_RIGHT : SF_CHANNEL_MAP_CENTER ; sf_command (f, SFC_SET_CHANNEL_MAP_INFO, map.data (), (int) (sizeof (int) * ch)) ;
 	static char payload [37] = "custom chunk payload 0123456789abcde" ;
 	SF_CHUNK_INFO ck ; memset (&ck, 0, sizeof (ck)) ; snprintf (ck.id, sizeof (ck.id), "abcd") ; ck.id_size = 4 ; ck.data = payload ; ck.datalen = 37 ; sf_set_chunk (f, &ck) ;
 	memset (&ck, 0, sizeof (ck)) ; snprintf (ck.id, sizeof (ck.id), "wxyz") ; ck.id_size = 4 ; ck.data = payload ; ck.datalen = 6 ; sf_set_chunk (f, &ck) ;
 }
 
-inline std::vector<SeedFile> c03_seeds ()
+// ---- hand-built variants of layouts the library reads but never writes itself (extra block / chunk types spliced into files it wrote)
+inline void put_u32 (std::vector<uint8_t> &v, uint32_t x, bool be) { for (int i = 0 ; i < 4 ; i++) v.push_back ((uint8_t) (be ? x >> (24 - 8 * i) : x >> (8 * i))) ; }
+inline std::vector<uint8_t> iff_chunk (const char *id, const std::vector<uint8_t> &body, bool be)
+{	std::vector<uint8_t> c (id, id + 4) ; put_u32 (c, (uint32_t) body.size (), be) ; c.insert (c.end (), body.begin (), body.end ()) ; if (body.size () & 1) c.push_back (0) ; return c ; }
+inline std::vector<uint8_t> text_body (const char *t, size_t n) { std::vector<uint8_t> b (n) ; size_t l = strlen (t) ; for (size_t i = 0 ; i < n ; i++) b [i] = (uint8_t) t [i % l] ; return b ; }
+// insert `extra` in front of the chunk called `before` of a RIFF / RIFX / FORM file and correct the outer size field
+inline bool iff_insert (std::vector<uint8_t> &f, const char *before, const std::vector<uint8_t> &extra)
+{	if (f.size () < 12) return false ; bool be = memcmp (f.data (), "FORM", 4) == 0 || memcmp (f.data (), "RIFX", 4) == 0 ;
+	for (auto &k : walk_iff (f)) if (k.id == before)
+	{	f.insert (f.begin () + (long) k.hdr, extra.begin (), extra.end ()) ;
+		uint32_t sz = be ? rd_be32 (f.data () + 4) : rd_le32 (f.data () + 4) ; sz += (uint32_t) extra.size () ;
+		for (int i = 0 ; i < 4 ; i++) f [4 + (size_t) i] = (uint8_t) (be ? sz >> (24 - 8 * i) : sz >> (8 * i)) ;
+		return true ;
+	}
+	return false ;
+}
+inline std::vector<uint8_t> voc_block (int type, const std::vector<uint8_t> &body)
+{	std::vector<uint8_t> b ; b.push_back ((uint8_t) type) ; b.push_back ((uint8_t) body.size ()) ; b.push_back ((uint8_t) (body.size () >> 8)) ; b.push_back ((uint8_t) (body.size () >> 16)) ; b.insert (b.end (), body.begin (), body.end ()) ; return b ; }
+
+
+inline std::vector<SeedFile> c03_seeds_lib ()
 {	std::vector<SeedFile> v ;
 	for (auto *e : all_vio_entries ())
 	{	int endian = e->format & SF_FORMAT_ENDMASK ; if (endian == SF_ENDIAN_CPU) continue ;
@@ -189,16 +209,80 @@ inline std::vector<SeedFile> c03_seeds ()
 		{	if (std::find (e->channels.begin (), e->channels.end (), ch) == e->channels.end ()) continue ;
 			int maj = e->format & SF_FORMAT_TYPEMASK ;
 			bool can_rich = endian == SF_ENDIAN_FILE && (maj == SF_FORMAT_WAV || maj == SF_FORMAT_WAVEX || maj == SF_FORMAT_RF64 || maj == SF_FORMAT_AIFF || maj == SF_FORMAT_CAF || maj == SF_FORMAT_W64) ;
-			for (int rich = 0 ; rich <= (can_rich ? 1 : 0) ; rich++)
+			for (int rich = 0 ; rich <= (can_rich ? (maj == SF_FORMAT_AIFF ? 2 : 1) : 0) ; rich++)
 			{	if (rich && ch == 2 && (e->format & SF_FORMAT_SUBMASK) != SF_FORMAT_PCM_16 && (e->format & SF_FORMAT_SUBMASK) != SF_FORMAT_FLOAT) continue ;
 				OpenSpec s ; s.format = e->format ; s.ch = ch ; s.rate = 8000 ; MemFile m ; SNDFILE *f = open_write_mem (m, s) ; if (!f) continue ;
-				if (rich) add_rich_metadata (f, ch) ;
+				if (rich) add_rich_metadata (f, ch, rich == 1) ;
 				long long N = 700 ; std::vector<short> a ((size_t) N * ch) ; Rng r ((uint64_t) e->format * 31 + ch) ; for (size_t i = 0 ; i < a.size () ; i++) a [i] = (short) (8000.0 * sin (i * 0.05) + (int) (r.next () % 600) - 300) ;
 				sf_writef_short (f, a.data (), N) ; if (rich) sf_set_string (f, SF_STR_COMMENT, "a trailing comment") ; sf_close (f) ;
-				v.push_back ({ format_str (e->format) + "_ch" + std::to_string (ch) + (rich ? "_rich" : ""), m.data, e->format, ch, rich != 0 }) ;
+				v.push_back ({ format_str (e->format) + "_ch" + std::to_string (ch) + (rich == 1 ? "_rich" : rich == 2 ? "_richmark" : ""), m.data, e->format, ch, rich != 0 }) ;
 			}
 		}
 	}
+	return v ;
+}
+
+inline void c03_hand_seeds (std::vector<SeedFile> &v)
+{	auto find = [&] (const std::string &name) -> const SeedFile * { for (auto &s : v) if (s.name == name) return &s ; return nullptr ; } ;
+	std::vector<SeedFile> add ;
+	// VOC: ASCII (5), marker (4), repeat (6) / end repeat (7) and silence (3) blocks in front of the sound data
+	for (const char *base : { "VOC/PCM_U8/FILE_ch1", "VOC/PCM_16/FILE_ch2", "VOC/ULAW/FILE_ch1" }) if (const SeedFile *b = find (base))
+	{	struct V { const char *tag ; std::vector<std::vector<uint8_t>> blocks ; } ;
+		std::vector<V> vs = {
+			{ "ascii10", { voc_block (5, text_body ("hello voc ", 10)) } },
+			{ "ascii254_255_256", { voc_block (5, text_body ("abcdefg ", 254)), voc_block (5, text_body ("hijk ", 255)), voc_block (5, text_body ("lmnop ", 256)) } },
+			{ "ascii4096_3000", { voc_block (5, text_body ("long text block ", 4096)), voc_block (5, text_body ("second long block ", 3000)) } },
+			{ "repeat_ascii", { voc_block (6, { 2, 0 }), voc_block (5, text_body ("in a repeat ", 300)), voc_block (7, { }) } },
+			{ "marker_silence", { voc_block (4, { 7, 0 }), voc_block (3, { 0x10, 0x00, 0x83 }) } } } ;
+		for (auto &x : vs)
+		{	if (b->bytes.size () < 26) continue ; std::vector<uint8_t> f (b->bytes.begin (), b->bytes.begin () + 26) ; for (auto &bl : x.blocks) f.insert (f.end (), bl.begin (), bl.end ()) ; f.insert (f.end (), b->bytes.begin () + 26, b->bytes.end ()) ;
+			add.push_back ({ std::string (base) + "_hand_" + x.tag, f, b->format, b->ch, true }) ;
+		}
+	}
+	// WAV family: chunks the parser knows but the writer never emits
+	for (const char *base : { "WAV/PCM_16/FILE_ch2_rich", "WAVEX/PCM_16/FILE_ch1_rich", "RF64/PCM_16/FILE_ch1_rich", "WAV/IMA_ADPCM/FILE_ch1_rich" }) if (const SeedFile *b = find (base))
+	{	std::vector<uint8_t> f = b->bytes, extra, adtl ; bool be = false ;
+		{ std::vector<uint8_t> acid ; put_u32 (acid, 1, be) ; acid.push_back (60) ; acid.push_back (0) ; acid.push_back (0) ; acid.push_back (0) ; put_u32 (acid, 0x3f800000, be) ; put_u32 (acid, 4, be) ; acid.push_back (4) ; acid.push_back (0) ; acid.push_back (4) ; acid.push_back (0) ; put_u32 (acid, 0x42f00000, be) ; auto c = iff_chunk ("acid", acid, be) ; extra.insert (extra.end (), c.begin (), c.end ()) ; }
+		for (const char *id : { "PAD ", "JUNK", "DISP", "levl", "MEXT", "afsp", "clm ", "strc", "id3 ", "iXML" }) { auto c = iff_chunk (id, text_body ("0123456789abcdef", id [0] == 'J' ? 5 : 22), be) ; extra.insert (extra.end (), c.begin (), c.end ()) ; }
+		{	adtl.insert (adtl.end (), { 'a', 'd', 't', 'l' }) ;
+			std::vector<uint8_t> l ; put_u32 (l, 1, be) ; auto t = text_body ("label one", 10) ; l.insert (l.end (), t.begin (), t.end ()) ; auto c = iff_chunk ("labl", l, be) ; adtl.insert (adtl.end (), c.begin (), c.end ()) ;
+			std::vector<uint8_t> n ; put_u32 (n, 2, be) ; t = text_body ("a note", 7) ; n.insert (n.end (), t.begin (), t.end ()) ; c = iff_chunk ("note", n, be) ; adtl.insert (adtl.end (), c.begin (), c.end ()) ;
+			std::vector<uint8_t> x ; put_u32 (x, 1, be) ; put_u32 (x, 100, be) ; put_u32 (x, 0x206e6772, be) ; for (int i = 0 ; i < 8 ; i++) x.push_back (0) ; t = text_body ("ltxt text", 9) ; x.insert (x.end (), t.begin (), t.end ()) ; c = iff_chunk ("ltxt", x, be) ; adtl.insert (adtl.end (), c.begin (), c.end ()) ;
+			c = iff_chunk ("LIST", adtl, be) ; extra.insert (extra.end (), c.begin (), c.end ()) ;
+			std::vector<uint8_t> ex = { 'e', 'x', 'i', 'f' } ; auto e1 = iff_chunk ("ever", text_body ("0220", 4), be) ; ex.insert (ex.end (), e1.begin (), e1.end ()) ; auto e2 = iff_chunk ("emdl", text_body ("camera model", 13), be) ; ex.insert (ex.end (), e2.begin (), e2.end ()) ; c = iff_chunk ("LIST", ex, be) ; extra.insert (extra.end (), c.begin (), c.end ()) ;
+		}
+		if (iff_insert (f, "data", extra)) add.push_back ({ std::string (base) + "_hand_chunks", f, b->format, b->ch, true }) ;
+	}
+	// AIFF / AIFC: COMT, APPL, INST, basc, MIDI, AESD in front of SSND
+	for (const char *base : { "AIFF/PCM_16/FILE_ch2_rich", "AIFF/FLOAT/FILE_ch1_rich", "AIFF/IMA_ADPCM/FILE_ch1_rich", "AIFF/PCM_24/FILE_ch1_richmark", "AIFF/ULAW/FILE_ch1_richmark" }) if (const SeedFile *b = find (base))
+	{	std::vector<uint8_t> f = b->bytes, extra ; bool be = true ;
+		{ std::vector<uint8_t> c = { 0, 2 } ; for (int k = 0 ; k < 2 ; k++) { put_u32 (c, 0x12345678, be) ; c.push_back (0) ; c.push_back ((uint8_t) k) ; c.push_back (0) ; c.push_back (8) ; auto t = text_body ("comment ", 8) ; c.insert (c.end (), t.begin (), t.end ()) ; } auto ck = iff_chunk ("COMT", c, be) ; extra.insert (extra.end (), ck.begin (), ck.end ()) ; }
+		{ std::vector<uint8_t> a = { 's', 't', 'o', 'c' } ; auto t = text_body ("\x0bhello world", 12) ; a.insert (a.end (), t.begin (), t.end ()) ; auto ck = iff_chunk ("APPL", a, be) ; extra.insert (extra.end (), ck.begin (), ck.end ()) ; }
+		{ std::vector<uint8_t> in = { 60, 3, 0, 127, 1, 127, 0, 6, 0, 1, 0, 1, 0, 2, 0, 0, 0, 0, 0, 0 } ; auto ck = iff_chunk ("INST", in, be) ; extra.insert (extra.end (), ck.begin (), ck.end ()) ; }
+		{ std::vector<uint8_t> ba (0x54, 0) ; ba [3] = 1 ; ba [7] = 4 ; ba [9] = 60 ; ba [11] = 1 ; ba [13] = 4 ; ba [15] = 4 ; auto ck = iff_chunk ("basc", ba, be) ; extra.insert (extra.end (), ck.begin (), ck.end ()) ; }
+		for (const char *id : { "MIDI", "AESD", "ID3 ", "CHAN" }) { auto c = iff_chunk (id, text_body ("\x00\x00\x00\x65\x00\x00\x00\x00\x00\x00\x00\x00", 24), be) ; extra.insert (extra.end (), c.begin (), c.end ()) ; }
+		if (iff_insert (f, "SSND", extra)) add.push_back ({ std::string (base) + "_hand_chunks", f, b->format, b->ch, true }) ;
+	}
+	// SVX: text chunks, CHAN, envelope chunks in front of BODY
+	for (const char *base : { "SVX/PCM_S8/FILE_ch1", "SVX/PCM_16/FILE_ch1" }) if (const SeedFile *b = find (base))
+	{	std::vector<uint8_t> f = b->bytes, extra ;
+		for (const char *id : { "ANNO", "AUTH", "(c) ", "ATAK", "RLSE" }) { auto c = iff_chunk (id, text_body ("svx text ", 13), true) ; extra.insert (extra.end (), c.begin (), c.end ()) ; }
+		{ std::vector<uint8_t> ch ; put_u32 (ch, 6, true) ; auto c = iff_chunk ("CHAN", ch, true) ; extra.insert (extra.end (), c.begin (), c.end ()) ; }
+		if (iff_insert (f, "BODY", extra)) add.push_back ({ std::string (base) + "_hand_chunks", f, b->format, b->ch, true }) ;
+	}
+	// CAF: free / uuid / mark / strg / ovvw / midi chunks in front of the data chunk (id + 64-bit big-endian size)
+	for (const char *base : { "CAF/PCM_16/FILE_ch2_rich", "CAF/ALAC_16/FILE_ch1_rich" }) if (const SeedFile *b = find (base))
+	{	std::vector<uint8_t> f = b->bytes, extra ;
+		for (const char *id : { "free", "uuid", "mark", "strg", "ovvw", "midi", "umid", "edct" }) { extra.insert (extra.end (), id, id + 4) ; put_u32 (extra, 0, true) ; put_u32 (extra, 28, true) ; auto t = text_body ("\x00\x00\x00\x02""caf chunk body", 28) ; extra.insert (extra.end (), t.begin (), t.end ()) ; }
+		size_t pos = 0 ; bool found = false ; for (size_t i = 8 ; i + 12 < f.size () ; i++) if (memcmp (f.data () + i, "data", 4) == 0 && f [i + 4] == 0 && f [i + 5] == 0) { pos = i ; found = true ; break ; }
+		if (found) { f.insert (f.begin () + (long) pos, extra.begin (), extra.end ()) ; add.push_back ({ std::string (base) + "_hand_chunks", f, b->format, b->ch, true }) ; }
+	}
+	v.insert (v.end (), add.begin (), add.end ()) ;
+}
+
+inline std::vector<SeedFile> c03_seeds ()
+{	std::vector<SeedFile> v = c03_seeds_lib () ;
+	c03_hand_seeds (v) ;
 	return v ;
 }
 
